@@ -449,11 +449,20 @@ func (db *LeveldbPermanent) loadLastSuffrageProof() error {
 	if err := pst.Iter(
 		leveldbutil.BytesPrefix(leveldbKeySuffrageProof[:]),
 		func(_, b []byte) (bool, error) {
-			var err error
+			enchint, header, bodyb, err := ReadOneHeaderFrame(b)
+			if err != nil {
+				return false, err
+			}
 
-			meta, err = ReadDecodeOneHeaderFrame(db.encs, b, &proof)
+			var i base.SuffrageProof
 
-			return false, err
+			if err := DecodeFrame(db.encs, enchint, bodyb, &i); err != nil {
+				return false, err
+			}
+
+			proof, meta, body = i, header, bodyb
+
+			return false, nil
 		},
 		false,
 	); err != nil {
